@@ -1,3 +1,4 @@
+mod alloc_count;
 mod boxsched;
 mod charsdump;
 mod lifecycle;
